@@ -18,7 +18,7 @@ from .. import irrules
 from ..irrules import Report, base_name
 from . import ir_laws
 
-REFERENCE_ELEMS = ('NM', 'TM', 'MO', 'MOT', 'CO')
+REFERENCE_ELEMS = ('NM', 'NA', 'TM', 'MO', 'MOT', 'CO')
 
 
 def canon(t):
